@@ -234,11 +234,16 @@ def gwDomains (base : Ctx) (g : Gateway) (vss : List GwVS) (routeName : String) 
       | none => [])
     ++ (if s.hasTLS && s.redirect then s.hosts.map (fun h => lower (stripNs h)) else [])
 
-def domainRequiresTls (g : Gateway) (vss : List GwVS) (routeName : String) (d : String) : Bool :=
-  (gwServers g routeName).any fun s =>
+def domainRequiresTls (base : Ctx) (g : Gateway) (vss : List GwVS) (routeName : String) (d : String) : Bool :=
+  let servers := gwServers g routeName
+  servers.any fun s =>
     s.hasTLS && s.redirect &&
       (s.hosts.any (fun h => lower (stripNs h) == d) ||
-       (boundTo g vss).any (fun v => (hostIntersection (namesForNamespace s.hosts v.vs.ns) v.vs.hosts).any (fun h => lower h == d)))
+       (boundTo g vss).any (fun v =>
+         (hostIntersection (namesForNamespace s.hosts v.vs.ns) v.vs.hosts).any (fun h => lower h == d) &&
+         (match firstServerFor g servers v with
+          | some s0 => vsApplies (gwCtx base g s0) v.vs
+          | none => false)))
 
 /-- **Gateway SPEC.**  The request is answered by the most specific domain of the route configuration
     for its authority (exact, longest wildcard, `*`); plain-text requests to an `httpsRedirect` host are
@@ -249,7 +254,7 @@ def gwSpec (re : Regex) (base : Ctx) (g : Gateway) (vss : List GwVS) (routeName 
   | none => .notFound
   | some v =>
     let d := v.name
-    if domainRequiresTls g vss routeName d && req.scheme == "http" then .tlsRedirect
+    if domainRequiresTls base g vss routeName d && req.scheme == "http" then .tlsRedirect
     else mergedSpec re (contributors base g vss routeName d) req
 
 end IstioModel.C12
